@@ -396,7 +396,7 @@ Qed.
 
 Lemma prefilter_superset T specs c cs : Inv T specs c -> superset c cs (prefilter T specs c cs).
 Proof.
-  intros HI. unfold prefilter. apply prefilter_loop_superset; [exact HI|auto| |exact I].
+  intros HI. unfold prefilter. destruct (Nat.ltb _ _); [exact I|]. apply prefilter_loop_superset; [exact HI|auto| |exact I].
   constructor; [|constructor]. intros ic Hic. inversion Hic.
 Qed.
 
